@@ -8,26 +8,39 @@ Local Open Scope Z_scope.
 
 (* ---------------------------------------------------------------- (JWT) *)
 
-(* For EVERY state p of the parser's hit counters: the handler runs iff the library accepts the token
-   under the current secret, or a previous secret is configured and it accepts under that one; and the
-   parser state changes in its counters only. lib_contract = golang-jwt's "err == nil iff token.Valid,
-   claims are the MapClaims handed in" (checked on every correspondence case). *)
-Theorem c04_jwt_iff : forall jwt_parse, lib_contract jwt_parse ->
-  forall cb now p secret prev tok,
-  let r := authorize jwt_parse cb now p secret prev tok in
+(* The jwt library validates exp/nbf/iat against the clock: jwt_at jt is the library at the time jt of the
+   request, jwt_ok (jwt_at jt) s tok = "signature verifies under s and the time claims are valid at jt".
+   For EVERY time jt, EVERY state p of the parser's hit counters (= every history of earlier requests) and every
+   virtual-clock reading: the handler runs iff the library accepts the token at jt under the current secret, or a
+   previous secret is configured and it accepts under that one; the parser state changes in its counters only.
+   lib_contract = golang-jwt's "err == nil iff token.Valid, claims are the MapClaims handed in" (measured per case). *)
+Theorem c04_jwt_iff : forall jwt_at : Z -> N -> N -> jverdict, (forall jt, lib_contract (jwt_at jt)) ->
+  forall jt cb now p secret prev tok,
+  let r := authorize (jwt_at jt) cb now p secret prev tok in
   (j_ran (snd r) = true <->
-   jwt_ok jwt_parse secret tok = true \/ (prev <> 0%N /\ jwt_ok jwt_parse prev tok = true)) /\
+   jwt_ok (jwt_at jt) secret tok = true \/ (prev <> 0%N /\ jwt_ok (jwt_at jt) prev tok = true)) /\
   reset_time (fst r) = reset_time p /\ reset_dur (fst r) = reset_dur p.
-Proof. exact jwt_iff_full. Qed.
+Proof. intros jwt_at L jt. exact (jwt_iff_full (jwt_at jt) (L jt)). Qed.
 Print Assumptions c04_jwt_iff.
 
-(* ... hence along every history of requests through one middleware instance, from every start state *)
-Theorem c04_jwt_history : forall jwt_parse, lib_contract jwt_parse ->
-  forall cb secret prev (reqs : list (Z * N)) p,
-  map j_ran (snd (run_jwt jwt_parse cb p secret prev reqs)) =
-  map (fun nt => jwt_accept (jwt_ok jwt_parse) secret prev (snd nt)) reqs /\
-  reset_time (fst (run_jwt jwt_parse cb p secret prev reqs)) = reset_time p /\
-  reset_dur (fst (run_jwt jwt_parse cb p secret prev reqs)) = reset_dur p.
+(* acceptance depends only on (secret, prevSecret, token, time of the request): two middleware instances in
+   arbitrary states -- e.g. one that accepted this very token earlier and one that never saw it -- decide alike *)
+Theorem c04_jwt_no_memory : forall jwt_at : Z -> N -> N -> jverdict, (forall jt, lib_contract (jwt_at jt)) ->
+  forall jt cb cb' now now' p p' secret prev tok,
+  j_ran (snd (authorize (jwt_at jt) cb now p secret prev tok)) =
+  j_ran (snd (authorize (jwt_at jt) cb' now' p' secret prev tok)).
+Proof. intros jwt_at L jt. exact (jwt_no_memory (jwt_at jt) (L jt)). Qed.
+Print Assumptions c04_jwt_no_memory.
+
+(* ... hence along every history ((virtual now, time jt), token) through one middleware instance, from every
+   start state: the n-th decision is the Spec's at the n-th request's own time (a token accepted while valid is
+   refused once exp has passed, or before nbf) *)
+Theorem c04_jwt_history : forall jwt_at : Z -> N -> N -> jverdict, (forall jt, lib_contract (jwt_at jt)) ->
+  forall cb secret prev (reqs : list (Z * Z * N)) p,
+  map j_ran (snd (run_jwt jwt_at cb p secret prev reqs)) =
+  map (fun r => jwt_accept (jwt_ok (jwt_at (snd (fst r)))) secret prev (snd r)) reqs /\
+  reset_time (fst (run_jwt jwt_at cb p secret prev reqs)) = reset_time p /\
+  reset_dur (fst (run_jwt jwt_at cb p secret prev reqs)) = reset_dur p.
 Proof. exact jwt_history. Qed.
 Print Assumptions c04_jwt_history.
 
@@ -161,6 +174,27 @@ Theorem c04_tamper_rejected : forall decryptors rsa_dec b64_dec hmac_b64 sha_hex
 Proof. exact tamper_rejected. Qed.
 Print Assumptions c04_tamper_rejected.
 
+(* several signature-protected route groups on one engine (api/engine.go): the answer on group i's routes is a
+   function of group i's own configuration -- other groups and the registration order do not matter ... *)
+Theorem c04_sig_group_local : forall rsa_key_dec b64_dec hmac_b64 sha_hex url_parse body_dec groups groups' i j,
+  nth_error groups i = nth_error groups' j ->
+  engine_gate rsa_key_dec b64_dec hmac_b64 sha_hex url_parse body_dec groups i =
+  engine_gate rsa_key_dec b64_dec hmac_b64 sha_hex url_parse body_dec groups' j.
+Proof. exact engine_gate_local. Qed.
+Print Assumptions c04_sig_group_local.
+
+(* ... and a strict group refuses (403, no handler) every request whose secret does not decrypt under the key
+   configured FOR THAT GROUP under the announced fingerprint -- in particular when the fingerprint/key pair is
+   configured for another group only. (decryptor_map = the Go map built from PrivateKeys, later entries win) *)
+Theorem c04_sig_group_isolation : forall rsa_key_dec b64_dec hmac_b64 sha_hex url_parse body_dec groups i g now r o,
+  nth_error groups i = Some g -> g_keys g <> [] -> g_strict g = true -> method_checked r = true ->
+  (forall k, alookup bytes_eqb (announced_fp r) (decryptor_map (g_keys g)) = Some k ->
+             rsa_key_dec k (announced_secret r) = None) ->
+  engine_gate rsa_key_dec b64_dec hmac_b64 sha_hex url_parse body_dec groups i now r = Some o ->
+  s_status o = 403 /\ s_ran o = false.
+Proof. exact engine_isolation. Qed.
+Print Assumptions c04_sig_group_isolation.
+
 (* strict: whatever is not (header parses and signature verifies) is a 403 without handler;
    the Signature response header names the reason *)
 Theorem c04_strict_403 : forall decryptors rsa_dec b64_dec hmac_b64 sha_hex url_parse body_dec tol now r,
@@ -252,6 +286,20 @@ Theorem c04_rpc_strict_sound : forall steps cache past i store md app token,
 Proof. exact rpc_strict_sound. Qed.
 Print Assumptions c04_rpc_strict_sound.
 
+(* the interceptors: neither the method name nor unary/stream enters the decision, and the handler runs iff the
+   call is accepted (code OK) *)
+Theorem c04_rpc_method_irrelevant : forall mode mode' m m' strict cache store md,
+  intercept mode m strict cache store md = intercept mode' m' strict cache store md.
+Proof. exact intercept_method_irrelevant. Qed.
+Print Assumptions c04_rpc_method_irrelevant.
+
+Theorem c04_rpc_handler_iff : forall mode m strict cache store md,
+  let '(cache', code, ran) := intercept mode m strict cache store md in
+  cache' = fst (authenticate strict cache store md) /\ code = snd (authenticate strict cache store md) /\
+  (ran = true <-> code = rpc_ok).
+Proof. exact intercept_spec. Qed.
+Print Assumptions c04_rpc_handler_iff.
+
 (* ---------------------------------------------------------------- non-vacuity *)
 
 Definition ex_jwt (s tok : N) : jverdict :=
@@ -287,3 +335,21 @@ Example c04_sig_nonvacuous :
   verify_signature ex_hmac ex_sha (fun _ => None) 10 1005 (mkr get [47%N; 98%N] [] [] [] [] 0) h = code_invalid_token /\
   verify_signature ex_hmac ex_sha (fun _ => None) 10 1011 r h = code_wrong_time.
 Proof. vm_compute. repeat split; reflexivity. Qed.
+
+(* time: the same token through one instance is accepted at t = 5 and refused at t = 20 (exp = 10) *)
+Definition ex_jwt_at (jt : Z) (s tok : N) : jverdict := if jt <? 10 then ex_jwt s tok else JErr.
+
+Example c04_jwt_time_nonvacuous :
+  map j_ran (snd (run_jwt ex_jwt_at CbNone (new_parser 0 100) 2%N 0%N [(1, 5, 1%N); (2, 20, 1%N); (3, 7, 1%N)])) = [true; false; true].
+Proof. vm_compute. reflexivity. Qed.
+
+(* groups: fingerprint "A" -> key 1 on group 0, "A" -> key 2 on group 1; a secret that only key 1 opens *)
+Example c04_group_nonvacuous :
+  let fpA := bytes_of_string "A" in
+  let groups := [mkg [(fpA, 1%N)] true 10; mkg [(fpA, 2%N)] true 10] in
+  let dec := fun (k : N) (s : bytes) => if (k =? 1)%N then Some (bytes_of_string "key=; time=1000; type=0") else None in
+  let cs := bytes_of_string "fingerprint=A; secret=S; signature=G" in
+  let r := mkr (bytes_of_string "GET") [47%N] [] [] cs [] 0 in
+  let gate := engine_gate dec (fun _ => Some []) (fun _ _ => bytes_of_string "G") (fun b => b) (fun _ => None) (fun _ _ => DecErr) groups in
+  option_map s_status (gate 0%nat 1005 r) = Some 200 /\ option_map s_status (gate 1%nat 1005 r) = Some 403.
+Proof. vm_compute. split; reflexivity. Qed.
